@@ -153,6 +153,8 @@ def plan_for(prop, tier, seed):
             ("tiny-byref", True, "dev", lambda ids, rng: G.f_tiny_placement(ids, rng, ifaces=("spi_ref", "p8_ref", "p16_ref", "rec_ref"), sample=0.02 if q else 0.2)),
             ("tiny-nobatch", False, "dev", lambda ids, rng: G.f_tiny_placement(ids, rng, ifaces=("rec", "spi"), sample=0.08 if q else 0.5)),
             ("smallalpha", True, "dev", lambda ids, rng: G.f_small_alphabet(ids, rng, 500 if q else 8000, ifaces=("spi", "spi", "p8", "p16", "rec"))),
+            # a call fails on the bus, the application draws on, retries, draws again: everything in bounds
+            ("fault-retry", True, "dev", lambda ids, rng: G.f_fault_retry(ids, rng, 300 if q else 8000, flavour="colour", ifaces=("spi", "p8", "rec", "p16"))),
         ]
     elif prop == "C02":
         p.mc = [(MCP, "MC_Placement_oob_q" if q else "MC_Placement_oob_t", 12, 3000, None)] + ([] if q else [(MCP, "MC_Placement_scaled", 12, 3000, None)])
@@ -183,6 +185,9 @@ def plan_for(prop, tier, seed):
             ("long-oob", True, "dev", lambda ids, rng: G.f_long_streams(ids, rng, 60 if q else 1000, ifaces=("rec",), oob=True)),
             ("long-nobatch", False, "dev", lambda ids, rng: G.f_long_streams(ids, rng, 60 if q else 600, ifaces=("rec", "spi"), maxlen=150)),
             ("tiny-streams", True, "dev", lambda ids, rng: G.f_tiny_placement(ids, rng, ifaces=("rec",), sample=0.1 if q else 0.6)),
+            # streams after a failed orientation change / a failed stream, with retries and a power cycle in the recovery
+            ("streams-after-fault", True, "dev", lambda ids, rng: {"bases": [b for _ in range(1 if q else 3) for b in G.fault_bases(ids, rng, q)
+                                                                            if b["tag"] == "fault-op" and b["calls"][b["_target"] - 1]["name"] in ("set_orientation", "draw_iter")]}),
         ]
     elif prop == "C04":
         p.mc = [("MC_Small", "MC_Small_clip16", 4, 600, None), ("MC_Fused", "MC_Fused", 4, 900, None),
@@ -227,6 +232,11 @@ def plan_for(prop, tier, seed):
             ("reorient-nobatch", False, "dev", lambda ids, rng: G.f_reorient(ids, rng, G.tiny_model_list([(2, 3), (4, 3)], rng, 3 if q else 20), ifaces=("rec",))),
             # an external model that programs (and returns) its own colour order: the bits it set must survive set_orientation
             ("reorient-own-madctl", True, "dev", lambda ids, rng: G.f_reorient(ids, rng, [("tinybgr565_4x3", 4, 3, rng.sample(list(G.windows(4, 3)), 4 if q else 30))], ifaces=("rec", "spi"))),
+            # orientation changes inside power-state / tearing / scrolling histories: the address mode the controller ends up
+            # with is the one of the last set_orientation, whatever else was (re-)sent in between
+            ("reorient-asleep", True, "dev", lambda ids, rng: G.f_orient_asleep(ids, rng, n=120 if q else 5000)),
+            ("reorient-lifecycle", True, "dev", lambda ids, rng: G.f_lifecycle(ids, rng, n_per_model=4 if q else 200, length=10 if q else 20)),
+            ("reorient-fault-retry", True, "dev", lambda ids, rng: G.f_fault_retry(ids, rng, 200 if q else 5000, flavour="colour", ifaces=("spi", "p8", "rec"))),
         ]
     elif prop == "C20":
         p.mc = [("MC_Spi", "MC_Spi", 8, 900, None), (MCP, "MC_Batch_q" if q else "MC_Batch_t", 12, 3000, None)]
@@ -396,6 +406,21 @@ def plan_for(prop, tier, seed):
         for (name, batch, profile, g) in list(p.families):
             if name in REL.get(prop, ()) and batch and profile == "dev":
                 p.families.append((name + "-release", True, "rel", g))
+    else:
+        # quick tier: a small release-profile sample, so that a change that only shows without overflow checks / debug
+        # assertions (a side effect inside debug_assert!, a wrapping counter) is seen on every change too
+        RELQ = {"C01": lambda ids, rng: G.f_contig_tiny(ids, rng, sample=0.04, ifaces=("rec", "spi")) + G.f_small_alphabet(ids, rng, 60, ifaces=("spi", "p8", "rec")),
+                "C03": lambda ids, rng: G.f_long_streams(ids, rng, 50, ifaces=("rec", "spi")),
+                "C04": lambda ids, rng: G.f_contig_tiny(ids, rng, sample=0.05, ifaces=("rec", "spi")),
+                "C06": lambda ids, rng: G.f_spi_grid(ids, rng, sample=0.2, big=1),
+                "C07": lambda ids, rng: G.f_parallel(ids, rng, sample=0.2, big=1),
+                "C08": lambda ids, rng: G.f_long_streams(ids, rng, 40, ifaces=("rec", "spi")) + G.f_small_alphabet(ids, rng, 60, ifaces=("p8", "spi")),
+                "C10": lambda ids, rng: G.f_reorient(ids, rng, G.tiny_model_list([(2, 3), (4, 3)], rng, 2), ifaces=("rec", "spi")),
+                "C13": lambda ids, rng: G.f_lifecycle(ids, rng, n_per_model=2, length=8),
+                "C16": lambda ids, rng: G.f_scroll(ids, rng, nrandom=60, offsets="sample")[::3],
+                "C20": lambda ids, rng: [G.measure_rowcap(ids)] + G.f_long_streams(ids, rng, 50, ifaces=("rec", "spi"))}
+        if prop in RELQ:
+            p.families.append(("release-sample", True, "rel", RELQ[prop]))
     return p
 
 
